@@ -1241,3 +1241,41 @@ Example group_signal_detached : exists g,
   grun deps_one mv_group_signal_detached gfresh0 = Some g /\
   scheds (jd g 0) 0 = SFinal VDone /\ body_runs (jd g 0) = 1 /\ launches (jd g 0) = 1.
 Proof. eexists. split; [vm_compute; reflexivity|]. repeat split. Qed.
+
+(* ==================================================================
+   "running jobs are adopted rather than relaunched" (statements first proved by the audit, Audit_C11.v)
+   ================================================================== *)
+(* while the pid file names a live process, the scheduler is nowhere on the launch path (between a
+   negative aio_process() and Popen), and Popen is not enabled *)
+Lemma adopted_not_relaunched : forall deps g, greachable1 deps g ->
+  forall j p, pidf (jd g j) = PFSome p -> alive (procs (jd g j) p) = true ->
+  sprelaunch (scheds (jd g j) 0) = false /\ lstep (LSpawn 0) (jd g j) = None.
+Proof.
+  intros deps g Hr j p Hp Ha.
+  destruct (greachable1_Inv1 deps g Hr j) as (_ & _ & H2 & _).
+  assert (E : sprelaunch (scheds (jd g j) 0) = false).
+  { destruct (sprelaunch (scheds (jd g j) 0)) eqn:E; [|reflexivity].
+    rewrite (H2 E p Hp) in Ha. discriminate. }
+  split; [assumption|]. unfold lstep, lstep_with.
+  destruct (scheds (jd g j) 0); simpl in E; try reflexivity; discriminate.
+Qed.
+
+(* the faithful exception: a scheduler killed between Popen and the write of the pid file leaves a running
+   job that no later run can see; the next run goes down the launch path and will start a second process
+   (which queues behind the lock and skips the body) *)
+Definition gstate_of (deps : nat -> list nat) (ms : list gmove) : gstate :=
+  match grun deps ms gfresh0 with Some g => g | None => gfresh0 end.
+Definition mv_orphan_run : list gmove :=
+  on 0 [LSubmit 0; LTest1 0; LPid 0; LTest2 0; LReady 0; LSLock 0; LTrunc 0; LWrite 0; LSpawn 0] ++ [GDie 0] ++
+  on 0 (tr_proc_begin 0) ++ on 0 [LSubmit 0; LTest1 0; LPid 0; LTest2 0; LReady 0].
+Lemma orphan_not_adopted : exists g,
+  greachable1 deps_one g /\ procs (jd g 0) 0 = PBody /\ pidf (jd g 0) = PFNone /\
+  scheds (jd g 0) 0 = SLock /\ sprelaunch (scheds (jd g 0) 0) = true /\ launches (jd g 0) = 1.
+Proof.
+  exists (gstate_of deps_one mv_orphan_run). split.
+  - exists gfresh0. split; [apply gfresh0_fresh|].
+    eapply grun_sound1 with (ms := mv_orphan_run); [vm_compute; reflexivity|].
+    unfold gstate_of. destruct (grun deps_one mv_orphan_run gfresh0) eqn:E; [reflexivity|].
+    exfalso. revert E. vm_compute. discriminate.
+  - vm_compute. repeat split.
+Qed.
